@@ -1358,6 +1358,7 @@ func (m *Manager) HandleExecutorFailed(e *event.ExecutorFailedEvent) map[uid.ID]
 		t.executorId = "" // causes IsLocked() to become false for sure
 		thisTask := t
 		go func() {
+			verifhook.Point("taskman.executorFailed.beforeStateUpdate")
 			m.updateTaskState(thisTask.taskId, "ERROR")
 			thisTask.status = INACTIVE
 			taskParent := thisTask.GetParent()
@@ -1386,6 +1387,7 @@ func (m *Manager) HandleAgentFailed(e *event.AgentFailedEvent) map[uid.ID]struct
 		t.agentId = "" // causes IsLocked() to become false for sure
 		thisTask := t
 		go func() {
+			verifhook.Point("taskman.agentFailed.beforeStateUpdate")
 			m.updateTaskState(thisTask.taskId, "ERROR")
 			thisTask.status = INACTIVE
 			if taskParent := thisTask.GetParent(); taskParent != nil {
